@@ -159,7 +159,15 @@ func (c *recursionChecker) checkMixedValueNode(
 
 func (c *recursionChecker) checkType(typeName string, types map[string]ischema.Type) error {
 	if !c.visit(typeName) {
-		return c.createError()
+		err := c.createError()
+		c.path = c.path[:len(c.path)-1]
+		if typeName != c.path[0] {
+			// A cycle among other types. The checked (root) type does not
+			// require itself through it, and the example builder cuts such
+			// cycles off, so this is not reported.
+			return nil
+		}
+		return err
 	}
 	defer c.leave(typeName)
 
@@ -170,7 +178,9 @@ func (c *recursionChecker) checkType(typeName string, types map[string]ischema.T
 		return nil
 	}
 
-	return c.check(t.Schema.RootNode(), t.Schema.TypesList())
+	// Descend with the root's list of types: a type's own list does not know
+	// the other user types, so longer cycles would go unnoticed.
+	return c.check(t.Schema.RootNode(), types)
 }
 
 func (c *recursionChecker) visit(typeName string) bool {
